@@ -28,7 +28,7 @@ theorem processRedirect_facts {cfg : Cfg} {s : Sess} {st : Nat} {hasLoc : Bool} 
     · cases h
     · split at h
       · cases h
-      · cases h; exact ⟨rfl, by omega, rfl, by simp_all⟩
+      · cases h
       · cases h; exact ⟨rfl, by omega, rfl, by simp_all⟩
 
 theorem processResponse_facts {cfg : Cfg} {s : Sess} {r : Req} {st : Nat} {hasLoc : Bool} {tgt : Target} {s2 : Sess}
@@ -96,7 +96,7 @@ theorem run_good (cfg : Cfg) (adv : List Req → Reply) :
     split
     · -- session done
       refine ⟨?_, Nat.le_refl _, Nat.le_refl _, by simp, by simp, by simp <;> omega, by simp⟩
-      simp only []; split <;> simp
+      simp
     · rename_i r hcur
       split
       · exact ⟨by simp, Nat.le_refl _, Nat.le_refl _, by simp, by simp, by simp <;> omega, by simp⟩
@@ -135,7 +135,7 @@ theorem run_good (cfg : Cfg) (adv : List Req → Reply) :
               have : s2.cur = none := by simpa using hnone
               rw [this]
               refine ⟨?_, Nat.le_refl _, Nat.le_refl _, by simp, by simp, by simp <;> omega, by simp⟩
-              simp only []; split <;> simp
+              simp
 
 theorem initSess_facts (cfg : Cfg) (r : Req) :
     (initSess cfg r).numRedirects = 0 ∧ (initSess cfg r).loopType = .normal := by
